@@ -24,9 +24,10 @@ package json
 
 //@ func quoteChar
 //@   trusted formats an error message only (calls strconv.Quote)
-//@   modifies nothing
+//@   pure
 
 //@ func (*scanner).error
+//@   ensures[C16] stack-array: s.parseState.arr == old(s.parseState.arr) || fresh(s.parseState)
 //@   requires recv: s != nil
 //@   modifies s.step, s.err
 //@   ensures[C16] dead: errored(s, result)
@@ -34,21 +35,25 @@ package json
 //@ func stateError
 //@   modifies nothing
 //@   ensures[C16] dead: result == scanError
+//@   ensures[C16] scanError-has-error: s != nil && sShape(s) && s.step == stateError ==> s.err != nil
 
 //@ func (*scanner).reset
 //@   requires recv: s != nil
 //@   modifies s.step, s.parseState, s.err, s.endTop
 //@   ensures[C09,C16] initial: s.step == stateBeginValue && len(s.parseState) == 0 && s.err == nil && !s.endTop
+//@   ensures[C16] stack-array: s.parseState.arr == old(s.parseState.arr)
 
 //@ func (*scanner).pushParseState
+//@   ensures[C16] stack-array: s.parseState.arr == old(s.parseState.arr) || fresh(s.parseState)
 //@   requires recv: s != nil
 //@   modifies s.step, s.err, s.parseState, elems(s.parseState)
 //@   let n = old(len(s.parseState))
-//@   ensures[C16] pushed: len(s.parseState) == n + 1 && s.parseState[n] == newParseState && (forall j int :: 0 <= j && j < n ==> s.parseState[j] == old(s.parseState[j]))
+//@   ensures[C16] pushed: len(s.parseState) == n + 1 && n >= 0 && s.parseState[n] == newParseState && (forall j int :: 0 <= j && j < n ==> s.parseState[j] == old(s.parseState[j]))
 //@   ensures[C16] within-depth: n + 1 <= 10000 ==> result == successState && s.step == old(s.step) && s.err == old(s.err)
 //@   ensures[C16] too-deep: n + 1 > 10000 ==> errored(s, result)
 
 //@ func (*scanner).popParseState
+//@   ensures[C16] stack-array: s.parseState.arr == old(s.parseState.arr) || fresh(s.parseState)
 //@   requires recv: s != nil && len(s.parseState) > 0
 //@   modifies s.step, s.endTop, s.parseState
 //@   let n = old(len(s.parseState))
@@ -75,6 +80,11 @@ package json
 //@   ensures[C16] null-literal: c == 'n' ==> result == scanBeginLiteral && s.step == stateN
 //@   ensures[C16] anything-else: !isSp(c) && c != '{' && c != '[' && c != '"' && c != '-' && !isDigit(c) && c != 't' && c != 'f' && c != 'n' ==> errored(s, result)
 //@   ensures[C16] scalars-keep-stack: c != '{' && c != '[' ==> sameStack(s, old(s.parseState))
+//@   requires shape: sShape(s) && s.err == nil
+//@   ensures[C04,C16] shape: sShape(s)
+//@   ensures[C16] error-only-with-stop: result != scanError && result != scanEnd ==> s.err == old(s.err)
+//@   ensures[C16] scanError-has-error: result == scanError ==> s.err != nil
+//@   ensures[C16] stack-array: s.parseState.arr == old(s.parseState.arr) || fresh(s.parseState)
 
 // VE: just after '['
 //@ func stateBeginValueOrEmpty
@@ -84,6 +94,11 @@ package json
 //@   ensures[C16] empty-array: c == ']' && old(top(s)) == parseArrayValue ==> result == scanEndArray && len(s.parseState) == old(len(s.parseState)) - 1
 //@   ensures[C16] otherwise-a-value: !isSp(c) && c != ']' && (c == '"' || c == '-' || isDigit(c) || c == 't' || c == 'f' || c == 'n') ==> result == scanBeginLiteral && sameStack(s, old(s.parseState))
 //@   ensures[C16] no-leading-comma: c == ',' || c == '}' || c == ':' ==> (c == ']' || errored(s, result))
+//@   requires shape: sShape(s) && s.err == nil
+//@   ensures[C04,C16] shape: sShape(s)
+//@   ensures[C16] error-only-with-stop: result != scanError && result != scanEnd ==> s.err == old(s.err)
+//@   ensures[C16] scanError-has-error: result == scanError ==> s.err != nil
+//@   ensures[C16] stack-array: s.parseState.arr == old(s.parseState.arr) || fresh(s.parseState)
 
 // KE: just after '{'
 //@ func stateBeginStringOrEmpty
@@ -93,6 +108,11 @@ package json
 //@   ensures[C16] empty-object: c == '}' ==> result == scanEndObject && len(s.parseState) == old(len(s.parseState)) - 1
 //@   ensures[C16] key: c == '"' ==> result == scanBeginLiteral && s.step == stateInString && sameStack(s, old(s.parseState))
 //@   ensures[C16] anything-else: !isSp(c) && c != '}' && c != '"' ==> errored(s, result)
+//@   requires shape: sShape(s) && s.err == nil
+//@   ensures[C04,C16] shape: sShape(s)
+//@   ensures[C16] error-only-with-stop: result != scanError && result != scanEnd ==> s.err == old(s.err)
+//@   ensures[C16] scanError-has-error: result == scanError ==> s.err != nil
+//@   ensures[C16] stack-array: s.parseState.arr == old(s.parseState.arr) || fresh(s.parseState)
 
 // Kx: after ',' inside an object: only a key may follow
 //@ func stateBeginString
@@ -101,6 +121,11 @@ package json
 //@   ensures[C16] space: isSp(c) ==> result == scanSkipSpace && s.step == old(s.step)
 //@   ensures[C16] key: c == '"' ==> result == scanBeginLiteral && s.step == stateInString
 //@   ensures[C16] anything-else: !isSp(c) && c != '"' ==> errored(s, result)
+//@   requires shape: sShape(s) && s.err == nil
+//@   ensures[C04,C16] shape: sShape(s)
+//@   ensures[C16] error-only-with-stop: result != scanError && result != scanEnd ==> s.err == old(s.err)
+//@   ensures[C16] scanError-has-error: result == scanError ==> s.err != nil
+//@   ensures[C16] stack-array: s.parseState.arr == old(s.parseState.arr) || fresh(s.parseState)
 
 // AV: a value has just ended
 //@ func stateEndValue
@@ -120,6 +145,11 @@ package json
 //@   ensures[C16] array-else: n > 0 && tp == parseArrayValue && c != ',' && c != ']' && !isSp(c) ==> errored(s, result)
 //@   ensures[C16] unknown-stack-entry: n > 0 && tp != parseObjectKey && tp != parseObjectValue && tp != parseArrayValue && !isSp(c) ==> errored(s, result)
 //@   ensures[C16] rest-of-stack: forall j int :: 0 <= j && j < n - 1 ==> s.parseState[j] == old(s.parseState[j])
+//@   requires shape: sShape(s) && s.err == nil
+//@   ensures[C04,C16] shape: sShape(s)
+//@   ensures[C16] error-only-with-stop: result != scanError && result != scanEnd ==> s.err == old(s.err)
+//@   ensures[C16] scanError-has-error: result == scanError ==> s.err != nil
+//@   ensures[C16] stack-array: s.parseState.arr == old(s.parseState.arr) || fresh(s.parseState)
 
 // Done: the top-level value is complete; only white space may follow
 //@ func stateEndTop
@@ -128,6 +158,11 @@ package json
 //@   ensures[C16] end: result == scanEnd
 //@   ensures[C16] space: isSp(c) ==> s.step == old(s.step) && s.err == old(s.err)
 //@   ensures[C16] trailing-data: !isSp(c) ==> s.step == stateError && s.err != nil
+//@   requires shape: sShape(s) && s.err == nil
+//@   ensures[C04,C16] shape: sShape(s)
+//@   ensures[C16] error-only-with-stop: result != scanError && result != scanEnd ==> s.err == old(s.err)
+//@   ensures[C16] scanError-has-error: result == scanError ==> s.err != nil
+//@   ensures[C16] stack-array: s.parseState.arr == old(s.parseState.arr) || fresh(s.parseState)
 
 // S, Es, U1..U4: inside a string
 //@ func stateInString
@@ -137,6 +172,11 @@ package json
 //@   ensures[C16] escape: c == '\\' ==> result == scanContinue && s.step == stateInStringEsc
 //@   ensures[C16] control-byte: c < 32 ==> errored(s, result)
 //@   ensures[C16] ordinary-byte: c >= 32 && c != '"' && c != '\\' ==> result == scanContinue && s.step == old(s.step) && s.err == old(s.err)
+//@   requires shape: sShape(s) && s.err == nil
+//@   ensures[C04,C16] shape: sShape(s)
+//@   ensures[C16] error-only-with-stop: result != scanError && result != scanEnd ==> s.err == old(s.err)
+//@   ensures[C16] scanError-has-error: result == scanError ==> s.err != nil
+//@   ensures[C16] stack-array: s.parseState.arr == old(s.parseState.arr) || fresh(s.parseState)
 
 //@ func stateInStringEsc
 //@   requires recv: s != nil
@@ -144,30 +184,55 @@ package json
 //@   ensures[C16] two-character-escape: c == 'b' || c == 'f' || c == 'n' || c == 'r' || c == 't' || c == '\\' || c == '/' || c == '"' ==> result == scanContinue && s.step == stateInString
 //@   ensures[C16] unicode-escape: c == 'u' ==> result == scanContinue && s.step == stateInStringEscU
 //@   ensures[C16] anything-else: c != 'b' && c != 'f' && c != 'n' && c != 'r' && c != 't' && c != '\\' && c != '/' && c != '"' && c != 'u' ==> errored(s, result)
+//@   requires shape: sShape(s) && s.err == nil
+//@   ensures[C04,C16] shape: sShape(s)
+//@   ensures[C16] error-only-with-stop: result != scanError && result != scanEnd ==> s.err == old(s.err)
+//@   ensures[C16] scanError-has-error: result == scanError ==> s.err != nil
+//@   ensures[C16] stack-array: s.parseState.arr == old(s.parseState.arr) || fresh(s.parseState)
 
 //@ func stateInStringEscU
 //@   requires recv: s != nil
 //@   modifies s.step, s.err
 //@   ensures[C16] hex: isHex(c) ==> result == scanContinue && s.step == stateInStringEscU1
 //@   ensures[C16] not-hex: !isHex(c) ==> errored(s, result)
+//@   requires shape: sShape(s) && s.err == nil
+//@   ensures[C04,C16] shape: sShape(s)
+//@   ensures[C16] error-only-with-stop: result != scanError && result != scanEnd ==> s.err == old(s.err)
+//@   ensures[C16] scanError-has-error: result == scanError ==> s.err != nil
+//@   ensures[C16] stack-array: s.parseState.arr == old(s.parseState.arr) || fresh(s.parseState)
 
 //@ func stateInStringEscU1
 //@   requires recv: s != nil
 //@   modifies s.step, s.err
 //@   ensures[C16] hex: isHex(c) ==> result == scanContinue && s.step == stateInStringEscU12
 //@   ensures[C16] not-hex: !isHex(c) ==> errored(s, result)
+//@   requires shape: sShape(s) && s.err == nil
+//@   ensures[C04,C16] shape: sShape(s)
+//@   ensures[C16] error-only-with-stop: result != scanError && result != scanEnd ==> s.err == old(s.err)
+//@   ensures[C16] scanError-has-error: result == scanError ==> s.err != nil
+//@   ensures[C16] stack-array: s.parseState.arr == old(s.parseState.arr) || fresh(s.parseState)
 
 //@ func stateInStringEscU12
 //@   requires recv: s != nil
 //@   modifies s.step, s.err
 //@   ensures[C16] hex: isHex(c) ==> result == scanContinue && s.step == stateInStringEscU123
 //@   ensures[C16] not-hex: !isHex(c) ==> errored(s, result)
+//@   requires shape: sShape(s) && s.err == nil
+//@   ensures[C04,C16] shape: sShape(s)
+//@   ensures[C16] error-only-with-stop: result != scanError && result != scanEnd ==> s.err == old(s.err)
+//@   ensures[C16] scanError-has-error: result == scanError ==> s.err != nil
+//@   ensures[C16] stack-array: s.parseState.arr == old(s.parseState.arr) || fresh(s.parseState)
 
 //@ func stateInStringEscU123
 //@   requires recv: s != nil
 //@   modifies s.step, s.err
 //@   ensures[C16] hex: isHex(c) ==> result == scanContinue && s.step == stateInString
 //@   ensures[C16] not-hex: !isHex(c) ==> errored(s, result)
+//@   requires shape: sShape(s) && s.err == nil
+//@   ensures[C04,C16] shape: sShape(s)
+//@   ensures[C16] error-only-with-stop: result != scanError && result != scanEnd ==> s.err == old(s.err)
+//@   ensures[C16] scanError-has-error: result == scanError ==> s.err != nil
+//@   ensures[C16] stack-array: s.parseState.arr == old(s.parseState.arr) || fresh(s.parseState)
 
 // Ng, Z, I, D, Fr, X, Xs, Xd: numbers
 //@ func stateNeg
@@ -176,6 +241,11 @@ package json
 //@   ensures[C16] zero: c == '0' ==> result == scanContinue && s.step == state0
 //@   ensures[C16] nonzero: is19(c) ==> result == scanContinue && s.step == state1
 //@   ensures[C16] bare-minus: !isDigit(c) ==> errored(s, result)
+//@   requires shape: sShape(s) && s.err == nil
+//@   ensures[C04,C16] shape: sShape(s)
+//@   ensures[C16] error-only-with-stop: result != scanError && result != scanEnd ==> s.err == old(s.err)
+//@   ensures[C16] scanError-has-error: result == scanError ==> s.err != nil
+//@   ensures[C16] stack-array: s.parseState.arr == old(s.parseState.arr) || fresh(s.parseState)
 
 //@ func state1
 //@   requires recv: s != nil
@@ -184,6 +254,11 @@ package json
 //@   ensures[C16] fraction: c == '.' ==> result == scanContinue && s.step == stateDot && sameStack(s, old(s.parseState))
 //@   ensures[C16] exponent: c == 'e' || c == 'E' ==> result == scanContinue && s.step == stateE && sameStack(s, old(s.parseState))
 //@   ensures[C16] ends-top-level: !isDigit(c) && c != '.' && c != 'e' && c != 'E' && old(len(s.parseState)) == 0 ==> result == scanEnd && s.endTop
+//@   requires shape: sShape(s) && s.err == nil
+//@   ensures[C04,C16] shape: sShape(s)
+//@   ensures[C16] error-only-with-stop: result != scanError && result != scanEnd ==> s.err == old(s.err)
+//@   ensures[C16] scanError-has-error: result == scanError ==> s.err != nil
+//@   ensures[C16] stack-array: s.parseState.arr == old(s.parseState.arr) || fresh(s.parseState)
 
 //@ func state0
 //@   requires recv: s != nil
@@ -193,12 +268,22 @@ package json
 //@   ensures[C16] no-leading-zero: isDigit(c) && old(len(s.parseState)) == 0 ==> result == scanEnd && s.step == stateError && s.err != nil
 //@   ensures[C16] no-leading-zero-nested: isDigit(c) && old(len(s.parseState)) > 0 ==> errored(s, result)
 //@   ensures[C16] ends-top-level: c != '.' && c != 'e' && c != 'E' && old(len(s.parseState)) == 0 ==> result == scanEnd && s.endTop
+//@   requires shape: sShape(s) && s.err == nil
+//@   ensures[C04,C16] shape: sShape(s)
+//@   ensures[C16] error-only-with-stop: result != scanError && result != scanEnd ==> s.err == old(s.err)
+//@   ensures[C16] scanError-has-error: result == scanError ==> s.err != nil
+//@   ensures[C16] stack-array: s.parseState.arr == old(s.parseState.arr) || fresh(s.parseState)
 
 //@ func stateDot
 //@   requires recv: s != nil
 //@   modifies s.step, s.err
 //@   ensures[C16] digit: isDigit(c) ==> result == scanContinue && s.step == stateDot0
 //@   ensures[C16] digit-required: !isDigit(c) ==> errored(s, result)
+//@   requires shape: sShape(s) && s.err == nil
+//@   ensures[C04,C16] shape: sShape(s)
+//@   ensures[C16] error-only-with-stop: result != scanError && result != scanEnd ==> s.err == old(s.err)
+//@   ensures[C16] scanError-has-error: result == scanError ==> s.err != nil
+//@   ensures[C16] stack-array: s.parseState.arr == old(s.parseState.arr) || fresh(s.parseState)
 
 //@ func stateDot0
 //@   requires recv: s != nil
@@ -206,6 +291,11 @@ package json
 //@   ensures[C16] digit: isDigit(c) ==> result == scanContinue && s.step == old(s.step) && sameStack(s, old(s.parseState))
 //@   ensures[C16] exponent: c == 'e' || c == 'E' ==> result == scanContinue && s.step == stateE && sameStack(s, old(s.parseState))
 //@   ensures[C16] second-point: c == '.' && old(len(s.parseState)) > 0 ==> errored(s, result)
+//@   requires shape: sShape(s) && s.err == nil
+//@   ensures[C04,C16] shape: sShape(s)
+//@   ensures[C16] error-only-with-stop: result != scanError && result != scanEnd ==> s.err == old(s.err)
+//@   ensures[C16] scanError-has-error: result == scanError ==> s.err != nil
+//@   ensures[C16] stack-array: s.parseState.arr == old(s.parseState.arr) || fresh(s.parseState)
 
 //@ func stateE
 //@   requires recv: s != nil
@@ -213,18 +303,33 @@ package json
 //@   ensures[C16] sign: c == '+' || c == '-' ==> result == scanContinue && s.step == stateESign
 //@   ensures[C16] digit: isDigit(c) ==> result == scanContinue && s.step == stateE0
 //@   ensures[C16] digit-required: c != '+' && c != '-' && !isDigit(c) ==> errored(s, result)
+//@   requires shape: sShape(s) && s.err == nil
+//@   ensures[C04,C16] shape: sShape(s)
+//@   ensures[C16] error-only-with-stop: result != scanError && result != scanEnd ==> s.err == old(s.err)
+//@   ensures[C16] scanError-has-error: result == scanError ==> s.err != nil
+//@   ensures[C16] stack-array: s.parseState.arr == old(s.parseState.arr) || fresh(s.parseState)
 
 //@ func stateESign
 //@   requires recv: s != nil
 //@   modifies s.step, s.err
 //@   ensures[C16] digit: isDigit(c) ==> result == scanContinue && s.step == stateE0
 //@   ensures[C16] digit-required: !isDigit(c) ==> errored(s, result)
+//@   requires shape: sShape(s) && s.err == nil
+//@   ensures[C04,C16] shape: sShape(s)
+//@   ensures[C16] error-only-with-stop: result != scanError && result != scanEnd ==> s.err == old(s.err)
+//@   ensures[C16] scanError-has-error: result == scanError ==> s.err != nil
+//@   ensures[C16] stack-array: s.parseState.arr == old(s.parseState.arr) || fresh(s.parseState)
 
 //@ func stateE0
 //@   requires recv: s != nil
 //@   modifies s.step, s.endTop, s.err, s.parseState, elems(s.parseState)
 //@   ensures[C16] digit: isDigit(c) ==> result == scanContinue && s.step == old(s.step) && sameStack(s, old(s.parseState))
 //@   ensures[C16] no-second-exponent: (c == 'e' || c == 'E' || c == '.') && old(len(s.parseState)) > 0 ==> errored(s, result)
+//@   requires shape: sShape(s) && s.err == nil
+//@   ensures[C04,C16] shape: sShape(s)
+//@   ensures[C16] error-only-with-stop: result != scanError && result != scanEnd ==> s.err == old(s.err)
+//@   ensures[C16] scanError-has-error: result == scanError ==> s.err != nil
+//@   ensures[C16] stack-array: s.parseState.arr == old(s.parseState.arr) || fresh(s.parseState)
 
 // T1..T3, F1..F4, N1..N3: the three literal names
 //@ func stateT
@@ -232,48 +337,148 @@ package json
 //@   modifies s.step, s.err
 //@   ensures[C16] next: c == 'r' ==> result == scanContinue && s.step == stateTr
 //@   ensures[C16] else: c != 'r' ==> errored(s, result)
+//@   requires shape: sShape(s) && s.err == nil
+//@   ensures[C04,C16] shape: sShape(s)
+//@   ensures[C16] error-only-with-stop: result != scanError && result != scanEnd ==> s.err == old(s.err)
+//@   ensures[C16] scanError-has-error: result == scanError ==> s.err != nil
+//@   ensures[C16] stack-array: s.parseState.arr == old(s.parseState.arr) || fresh(s.parseState)
 //@ func stateTr
 //@   requires recv: s != nil
 //@   modifies s.step, s.err
 //@   ensures[C16] next: c == 'u' ==> result == scanContinue && s.step == stateTru
 //@   ensures[C16] else: c != 'u' ==> errored(s, result)
+//@   requires shape: sShape(s) && s.err == nil
+//@   ensures[C04,C16] shape: sShape(s)
+//@   ensures[C16] error-only-with-stop: result != scanError && result != scanEnd ==> s.err == old(s.err)
+//@   ensures[C16] scanError-has-error: result == scanError ==> s.err != nil
+//@   ensures[C16] stack-array: s.parseState.arr == old(s.parseState.arr) || fresh(s.parseState)
 //@ func stateTru
 //@   requires recv: s != nil
 //@   modifies s.step, s.err
 //@   ensures[C16] next: c == 'e' ==> result == scanContinue && s.step == stateEndValue
 //@   ensures[C16] else: c != 'e' ==> errored(s, result)
+//@   requires shape: sShape(s) && s.err == nil
+//@   ensures[C04,C16] shape: sShape(s)
+//@   ensures[C16] error-only-with-stop: result != scanError && result != scanEnd ==> s.err == old(s.err)
+//@   ensures[C16] scanError-has-error: result == scanError ==> s.err != nil
+//@   ensures[C16] stack-array: s.parseState.arr == old(s.parseState.arr) || fresh(s.parseState)
 //@ func stateF
 //@   requires recv: s != nil
 //@   modifies s.step, s.err
 //@   ensures[C16] next: c == 'a' ==> result == scanContinue && s.step == stateFa
 //@   ensures[C16] else: c != 'a' ==> errored(s, result)
+//@   requires shape: sShape(s) && s.err == nil
+//@   ensures[C04,C16] shape: sShape(s)
+//@   ensures[C16] error-only-with-stop: result != scanError && result != scanEnd ==> s.err == old(s.err)
+//@   ensures[C16] scanError-has-error: result == scanError ==> s.err != nil
+//@   ensures[C16] stack-array: s.parseState.arr == old(s.parseState.arr) || fresh(s.parseState)
 //@ func stateFa
 //@   requires recv: s != nil
 //@   modifies s.step, s.err
 //@   ensures[C16] next: c == 'l' ==> result == scanContinue && s.step == stateFal
 //@   ensures[C16] else: c != 'l' ==> errored(s, result)
+//@   requires shape: sShape(s) && s.err == nil
+//@   ensures[C04,C16] shape: sShape(s)
+//@   ensures[C16] error-only-with-stop: result != scanError && result != scanEnd ==> s.err == old(s.err)
+//@   ensures[C16] scanError-has-error: result == scanError ==> s.err != nil
+//@   ensures[C16] stack-array: s.parseState.arr == old(s.parseState.arr) || fresh(s.parseState)
 //@ func stateFal
 //@   requires recv: s != nil
 //@   modifies s.step, s.err
 //@   ensures[C16] next: c == 's' ==> result == scanContinue && s.step == stateFals
 //@   ensures[C16] else: c != 's' ==> errored(s, result)
+//@   requires shape: sShape(s) && s.err == nil
+//@   ensures[C04,C16] shape: sShape(s)
+//@   ensures[C16] error-only-with-stop: result != scanError && result != scanEnd ==> s.err == old(s.err)
+//@   ensures[C16] scanError-has-error: result == scanError ==> s.err != nil
+//@   ensures[C16] stack-array: s.parseState.arr == old(s.parseState.arr) || fresh(s.parseState)
 //@ func stateFals
 //@   requires recv: s != nil
 //@   modifies s.step, s.err
 //@   ensures[C16] next: c == 'e' ==> result == scanContinue && s.step == stateEndValue
 //@   ensures[C16] else: c != 'e' ==> errored(s, result)
+//@   requires shape: sShape(s) && s.err == nil
+//@   ensures[C04,C16] shape: sShape(s)
+//@   ensures[C16] error-only-with-stop: result != scanError && result != scanEnd ==> s.err == old(s.err)
+//@   ensures[C16] scanError-has-error: result == scanError ==> s.err != nil
+//@   ensures[C16] stack-array: s.parseState.arr == old(s.parseState.arr) || fresh(s.parseState)
 //@ func stateN
 //@   requires recv: s != nil
 //@   modifies s.step, s.err
 //@   ensures[C16] next: c == 'u' ==> result == scanContinue && s.step == stateNu
 //@   ensures[C16] else: c != 'u' ==> errored(s, result)
+//@   requires shape: sShape(s) && s.err == nil
+//@   ensures[C04,C16] shape: sShape(s)
+//@   ensures[C16] error-only-with-stop: result != scanError && result != scanEnd ==> s.err == old(s.err)
+//@   ensures[C16] scanError-has-error: result == scanError ==> s.err != nil
+//@   ensures[C16] stack-array: s.parseState.arr == old(s.parseState.arr) || fresh(s.parseState)
 //@ func stateNu
 //@   requires recv: s != nil
 //@   modifies s.step, s.err
 //@   ensures[C16] next: c == 'l' ==> result == scanContinue && s.step == stateNul
 //@   ensures[C16] else: c != 'l' ==> errored(s, result)
+//@   requires shape: sShape(s) && s.err == nil
+//@   ensures[C04,C16] shape: sShape(s)
+//@   ensures[C16] error-only-with-stop: result != scanError && result != scanEnd ==> s.err == old(s.err)
+//@   ensures[C16] scanError-has-error: result == scanError ==> s.err != nil
+//@   ensures[C16] stack-array: s.parseState.arr == old(s.parseState.arr) || fresh(s.parseState)
 //@ func stateNul
 //@   requires recv: s != nil
 //@   modifies s.step, s.err
 //@   ensures[C16] next: c == 'l' ==> result == scanContinue && s.step == stateEndValue
 //@   ensures[C16] else: c != 'l' ==> errored(s, result)
+//@   requires shape: sShape(s) && s.err == nil
+//@   ensures[C04,C16] shape: sShape(s)
+//@   ensures[C16] error-only-with-stop: result != scanError && result != scanEnd ==> s.err == old(s.err)
+//@   ensures[C16] scanError-has-error: result == scanError ==> s.err != nil
+//@   ensures[C16] stack-array: s.parseState.arr == old(s.parseState.arr) || fresh(s.parseState)
+
+// ---- the drivers: how the automaton is run over an input (C16) ----
+// Shape of a scanner between two steps: a recorded error means the dead state; the two "just after an opening bracket" states are only entered with
+// the bracket's frame on the stack (stateBeginStringOrEmpty indexes parseState[n-1]).
+//@ define sShape(s *scanner) bool = s.step != nil && ((s.step == stateBeginStringOrEmpty || s.step == stateBeginValueOrEmpty) ==> len(s.parseState) > 0) && (s.err != nil <==> s.step == stateError)
+
+//@ func (*scanner).eof
+//@   requires recv: s != nil && allocated(s) && sShape(s)
+//@   modifies s.step, s.endTop, s.err, s.parseState, elems(s.parseState)
+//@   ensures[C16] error-is-sticky: old(s.err) != nil ==> result == scanError && s.err == old(s.err)
+//@   ensures[C16] already-complete: old(s.err) == nil && old(s.endTop) ==> result == scanEnd && s.err == nil
+//@   ensures[C16] end-or-error: result == scanEnd || result == scanError
+//@   ensures[C16] accepted-means-complete: result == scanEnd ==> s.endTop
+//@   ensures[C16] rejected-has-error: result == scanError ==> s.err != nil
+//@   ensures[C16] stack-array: s.parseState.arr == old(s.parseState.arr) || fresh(s.parseState)
+//@   callsite[C16] step#1 end-of-input-is-fed-as-one-space: arg_c == ' ' && arg_s == s
+
+//@ func checkValid
+//@   requires args: scan != nil && allocated(scan)
+//@   assume A-bytes: 0 <= scan.bytes && scan.bytes <= 4611686018427387904
+//@   modifies scan.step, scan.err, scan.endTop, scan.bytes, scan.parseState, elems(scan.parseState)
+//@   callsite[C16] step#1 every-byte-in-order-to-the-current-state: arg_c == data[rangeindex + 1] && arg_s == scan
+//@   ensures[C16] accepted-means-complete: result == nil ==> scan.endTop
+//@   ensures[C16] rejected-is-the-recorded-error: result != nil ==> result == scan.err
+//@   ensures[C16] rejected-has-error: result != nil ==> scan.err != nil
+//@   ensures[meta C16] accepts-iff-wf: (result == nil) <==> wf(data)
+//@   loop 1
+//@   invariant shape: sShape(scan)
+//@   invariant stack-array: scan.parseState.arr == old(scan.parseState.arr) || fresh(scan.parseState)
+//@   invariant[C09] counted: scan.bytes == atentry(scan.bytes) + rangeindex + 1
+
+// The two pool wrappers are assumed, not verified: sync.Pool hands out a *scanner that no other call holds
+// until it is put back (the type assertion and the exclusive ownership are facts about sync.Pool and about
+// every Put in the package), and a scanner that has been put back is dead until newScanner resets it again
+// (freeScanner may drop its stack, which breaks ScanInv for that dead scanner only).
+//@ func newScanner
+//@   trusted sync.Pool: exclusive *scanner; bytes zeroed and reset() called before it is returned
+//@   modifies nothing
+//@   ensures fresh-state: result != nil && allocated(result) && result.step == stateBeginValue && len(result.parseState) == 0 && result.err == nil && !result.endTop && result.bytes == 0
+
+//@ func freeScanner
+//@   trusted sync.Pool: the scanner is dead after Put
+//@   modifies nothing
+
+//@ func Valid
+//@   ensures[C16] iff: result <==> wf(data)
+
+//@ func (*SyntaxError).Error
+//@   requires recv: e != nil
+//@   modifies nothing
